@@ -945,6 +945,8 @@ class Engine:
             return T("Environment")
         if name == "lexer":
             return T("Lexer")
+        if name == "fn" and f.module.name == "nodes" and f.cls is None:
+            return T("ValueFunc", "FuncLambda")      # invoke() / getFuncallString(): callers test isFunc() first
         if name in ("token",) and f.module.name == "parser":
             return T("Token")
         if f.name in ("__eq__", "__lt__") and name == "other" and f.cls is not None \
@@ -1048,6 +1050,8 @@ class Engine:
         }
         if (t, attr) in fixed:
             return fixed[(t, attr)]
+        if (t == "FuncLambda" or t in self.cfg.func_classes) and ("ValueFunc", attr) in fixed:
+            return fixed[("ValueFunc", attr)]
         if attr == "info" and (self.cfg.is_value(t)):
             return STR
         if attr == "pos":
